@@ -590,23 +590,33 @@ fn run_gffl(c: &Case) -> Obs {
     Obs::ok(obs, data.contains(&b'\n'))
 }
 
-fn seq_wellformed(data: &[u8]) -> bool {
-    // the side condition of fasta_scanner_chunk_indep, up to the first '>' at a line start
+/// closed form of the (repaired) sequence reader — Coq: FastaScan.seq_out BOL
+fn seq_closed(data: &[u8]) -> Vec<u8> {
+    let mut out = Vec::new();
     let mut bol = true;
-    for (i, &b) in data.iter().enumerate() {
-        match b {
-            b'>' => return bol,
-            b'\r' => {
-                if i + 1 < data.len() && data[i + 1] != b'\n' {
-                    return false;
-                }
+    let mut i = 0;
+    while i < data.len() {
+        let b = data[i];
+        if b == b'\n' {
+            bol = true;
+        } else if bol {
+            if b == b'>' {
+                break;
+            } else if b != b'\r' {
+                out.push(b);
                 bol = false;
             }
-            b'\n' => bol = true,
-            _ => bol = false,
+        } else if b == b'\r' {
+            // a CR is part of the line terminator only just before LF (or the end of input)
+            if i + 1 < data.len() && data[i + 1] != b'\n' {
+                out.push(b);
+            }
+        } else {
+            out.push(b);
         }
+        i += 1;
     }
-    true
+    out
 }
 
 /// fasta sequence::Reader at its BufRead interface: fill_buf / consume(whole slice)
@@ -615,7 +625,6 @@ fn run_fseq(c: &Case) -> Obs {
     let data = c.b(0);
     let cap = c.u(1) as usize;
     let script = parse_script(&c.args[2]);
-    let has_intr = script.iter().any(|e| *e == Deliver::Interrupted);
     let mut r = noodles_fasta::io::Reader::new(BufReader::with_capacity(cap, ScriptedReader::new(data.clone(), script)));
     let mut pieces = Vec::new();
     let mut all = Vec::new();
@@ -639,39 +648,20 @@ fn run_fseq(c: &Case) -> Obs {
         }
     }
     let obs = format!("{}|{status}|{}", pieces.join(";"), bpos(r.get_ref()));
-    // oracle: on well-formed text without interrupts the concatenation is the closed form
-    if !has_intr {
-        let wf = seq_wellformed(&data);
-        let end = {
-            let mut bol = true;
-            let mut e = data.len();
-            for (i, &b) in data.iter().enumerate() {
-                if b == b'>' && (bol || wf) {
-                    e = i;
-                    break;
-                }
-                bol = b == b'\n';
-            }
-            e
-        };
-        let exp: Vec<u8> = data[..end].iter().copied().filter(|&b| b != b'\r' && b != b'\n').collect();
-        // read_sequence (read_to_end over the same reader) must agree with the pieces
-        let mut r2 = noodles_fasta::io::Reader::new(BufReader::with_capacity(cap, ScriptedReader::new(data.clone(), parse_script(&c.args[2]))));
-        let mut whole = Vec::new();
-        let res2 = r2.read_sequence(&mut whole);
-        if io_kind(&res2).is_some() || whole != all {
-            // read_to_end may consume slices partially; only on well-formed text must it agree
-            if wf {
-                return Obs::fail(obs, "fasta-read-sequence-differs-from-pieces", format!("read_sequence={} {:?}", hex(&whole), io_kind(&res2)));
-            }
-        }
-        if wf && all != exp {
-            return Obs::fail(obs, "fasta-chunking-dependent", format!("expected {}", hex(&exp)));
-        }
-        if !wf && all != exp {
-            let tag = fasta_class(&data).unwrap_or("fasta-chunking-dependent");
-            return Obs::fail(obs, tag, format!("single-window result would be different: got {} ", hex(&all)));
-        }
+    let class = |generic: &'static str| fasta_class(&data).unwrap_or(generic);
+    if status != "Ok" {
+        return Obs::fail(obs, "fasta-sequence-reader-error-surfaced", status);
+    }
+    let exp = seq_closed(&data);
+    if all != exp {
+        return Obs::fail(obs, class("fasta-chunking-dependent"), format!("closed form {} got {}", hex(&exp), hex(&all)));
+    }
+    // read_sequence (read_to_end over the same reader, which consumes slices partially) must agree
+    let mut r2 = noodles_fasta::io::Reader::new(BufReader::with_capacity(cap, ScriptedReader::new(data.clone(), parse_script(&c.args[2]))));
+    let mut whole = Vec::new();
+    let res2 = r2.read_sequence(&mut whole);
+    if io_kind(&res2).is_some() || whole != exp {
+        return Obs::fail(obs, class("fasta-read-sequence-differs-from-pieces"), format!("read_sequence={} {:?}", hex(&whole), io_kind(&res2)));
     }
     Obs::ok(obs, data.len() >= 2)
 }
@@ -964,7 +954,7 @@ fn generate(rng: &mut Rng, tier: &str, w: &mut CaseWriter) {
             if rng.chance(3, 4) {
                 f.push(b'\n');
             }
-            let script = random_script(rng, f.len(), false);
+            let script = random_script(rng, f.len(), with_intr);
             w.push("fidx", vec![hex(&f), cap.to_string(), fmt_script(&script)]);
         }
     }
